@@ -39,7 +39,16 @@ func (r *Runner) signerList(raw string) string {
 
 // Digest renders the canonical state digest (PROTOCOL.md §4) of the committed state. It must
 // be called right after InitChain+Commit or Commit, before any CheckTx touches the check state.
-func (r *Runner) Digest() []string {
+func (r *Runner) Digest() (out []string) {
+	// reading the committed state back must not fail: a panic in a store iterator or key parser is a line of its own
+	// (which the model never prints), not the end of the run
+	if p := guard(func() { out = r.digest() }); p != nil {
+		out = []string{"D panic reading-the-committed-state"}
+	}
+	return out
+}
+
+func (r *Runner) digest() []string {
 	ctx := r.CheckCtx()
 	a, sym, tok := r.App, r.Sym, script.Tok
 	var out []string
@@ -194,7 +203,7 @@ func (r *Runner) Digest() []string {
 	for i, addr := range sym.Addrs {
 		add("D bank.bal A%d %s %s", i, FmtCoins(bal(addr)), FmtCoins(bank.SpendableCoins(ctx, addr)))
 	}
-	for _, m := range []string{"Ment", "Mstr"} {
+	for _, m := range append([]string{"Ment", "Mstr"}, LongTokens...) {
 		add("D bank.bal %s %s %s", m, FmtCoins(bal(sym.Mods[m])), FmtCoins(bank.SpendableCoins(ctx, sym.Mods[m])))
 	}
 	add("D bank.fees %s", FmtCoins(bal(sym.Mods["Mfee"]).Add(bal(sym.Mods["Mdist"])...)))
